@@ -54,11 +54,12 @@ def gen(rng, tier, ctx):
     for _ in range(rng.randint(2, 10)):
         op = rng.choice(OPS if with_queries else OPS[:4])
         ops.append([op, rng.randrange(1000), rng.randrange(1000), rng.choice(["works_for", "member_of_append", "members_add", "sub_org_append", "part_of_append", "head_of", "members_assign"])])
-    return {"ops": ops, "k": rng.choice([2, 3, 4]), "longq": rng.choice([None, "entity", "cond", "setof"])}
+    return {"ops": ops, "k": rng.choice([2, 3, 4]), "longq": rng.choice([None, "entity", "cond", "setof", "rule"])}
 
 
 def witnesses():
-    return {"evaluated-queries-retained": {"ops": [["create", 0, 0, "x"], ["create", 1, 0, "x"], ["q_domain", 0, 0, "x"]], "k": 2}}
+    return {"evaluated-queries-retained": {"ops": [["create", 0, 0, "x"], ["create", 1, 0, "x"], ["q_domain", 0, 0, "x"]], "k": 2},
+            "rule-query-results-cached-for-ever": {"ops": [["create", 0, 0, "x"]], "k": 3, "longq": "rule"}}
 
 
 def body(om, ops, census):
@@ -131,7 +132,18 @@ def long_lived_query(om, spec, C):
     n = 3 + spec["k"] * 2
     form = spec["longq"]
     x = let(om.Org, None, name="x")
-    q = an(entity(x)) if form == "entity" else an(entity(x, x.name != "nobody")) if form == "cond" else an(set_of([x, x.name]))
+    if form == "rule":
+        # a rule query (the selected variable is inferred): its results are instances built from the bindings
+        from krrood.entity_query_language.entity import inference
+        from krrood.entity_query_language.conclusion import Add
+        from vlib import eqlmodel
+        v = inference(eqlmodel.V)()
+        q = an(entity(v, x.name != "nobody"))
+        with q:
+            Add(v, inference(eqlmodel.V)(tag="seen", p=x))
+        del v
+    else:
+        q = an(entity(x)) if form == "entity" else an(entity(x, x.name != "nobody")) if form == "cond" else an(set_of([x, x.name]))
     orgs = [om.Org(f"lq{i}") for i in range(n)]
     a_ = b_ = None
     if spec.get("k", 0) % 2 == 0:
@@ -150,7 +162,7 @@ def long_lived_query(om, spec, C):
     del orgs, a_, b_
     gc.collect()
     second = list(q.evaluate())
-    second_names = [(r.name if form != "setof" else r[x].name) for r in second]
+    second_names = [(r.p.name if form == "rule" else r.name if form != "setof" else r[x].name) for r in second]
     del second
     gc.collect()
     C["long_lived_queries"] += 1
